@@ -25,6 +25,7 @@ type Loop struct {
 	Chans     bool
 	KCell     interface{} // cell holding the range position
 	KOff      int         // $k = cell + KOff
+	MapIter   bool        // the loop ranges over a map
 	HasCall   bool
 }
 
@@ -126,6 +127,9 @@ func analyseLoopEffects(l *Loop) {
 					if b == l.Head {
 						l.KCell = ssa.Instruction(r)
 						l.KOff = 0
+						if _, isMap := r.X.Type().Underlying().(*types.Map); isMap {
+							l.MapIter = true
+						}
 					}
 				}
 			case *ssa.Alloc:
